@@ -35,6 +35,7 @@ import (
 	"fmt"
 	"runtime"
 	"sort"
+	"sync/atomic"
 	"time"
 
 	"github.com/SAP/go-dblib/tds"
@@ -313,6 +314,9 @@ func lateKinds() []lateKind {
 }
 
 func runLatePackets(out caser, kind, closeVia, via int, kinds []lateKind) {
+	if tooManyHangs() {
+		return // (every expiry of a watchdog already is a reported case)
+	}
 	e := newC13(4, 0)
 	defer e.shutdown()
 	kl := sx.L{}
@@ -373,6 +377,7 @@ func runLatePackets(out caser, kind, closeVia, via int, kinds []lateKind) {
 				// the call is parked inside the channel for good (it holds the read lock): leave the channel alone
 				rets = append(rets, sx.I(9))
 				stuck = true
+				atomic.AddInt32(&watchdogHits, 1)
 			}
 		} else {
 			e.pc.Feed(k.wire(id, 100+n))
@@ -409,6 +414,9 @@ func runLatePackets(out caser, kind, closeVia, via int, kinds []lateKind) {
 // ---------------------------------------------------------------- a packet in the window between lookup and lock
 
 func runWindow(out caser, closer int, k lateKind) {
+	if tooManyHangs() {
+		return
+	}
 	e := newC13(4, 0)
 	defer e.shutdown()
 	in := sx.L{sx.I(int64(closer)), k.tree()}
@@ -475,6 +483,9 @@ func runWindow(out caser, closer int, k lateKind) {
 			idle = 1
 		case <-time.After(hangBound):
 		}
+	}
+	if idle == 0 {
+		atomic.AddInt32(&watchdogHits, 1)
 	}
 	qn, _ := ch.VerifQueueLens()
 	connRet := true
